@@ -217,15 +217,26 @@ impl NoGoodStore {
                 DuplicateElemination::None => true,
                 DuplicateElemination::Equiv => !self.store[idx].contains(&nogood),
                 DuplicateElemination::Subsume => {
-                    self.store
-                        .iter_mut()
-                        .enumerate()
-                        .for_each(|(cur_idx, ng_vec)| {
-                            if idx >= cur_idx {
-                                ng_vec.retain(|ng| !ng.is_violating(&nogood));
-                            }
-                        });
-                    true
+                    if self
+                        .store
+                        .iter()
+                        .take(idx + 1)
+                        .any(|ng_vec| ng_vec.iter().any(|ng| ng.is_violating(&nogood)))
+                    {
+                        // a stored nogood is contained in the new one and already excludes everything it excludes
+                        false
+                    } else {
+                        // drop the stored nogoods which contain the new (stronger) one
+                        self.store
+                            .iter_mut()
+                            .enumerate()
+                            .for_each(|(cur_idx, ng_vec)| {
+                                if idx <= cur_idx {
+                                    ng_vec.retain(|ng| !nogood.is_violating(ng));
+                                }
+                            });
+                        true
+                    }
                 }
             } {
                 self.store[idx].push(nogood);
